@@ -346,6 +346,53 @@ def oracle_tree(tokens, spell_of):
 REWRITE = "nsl/passes/RewriteAssignEqualOperations.py"
 
 
+def check_list_accumulation(model, col, rule, G):
+    """Left-recursive list productions `L -> L x` / `L -> L sep x` carry every element into the list: on every path of the
+    action the new element p[last] is handed to the accumulated value (append / Add* / `+ [..]`), unconditionally."""
+    from ..paths import paths, calls_on_path
+
+    n = 0
+    for P in G.productions:
+        if not (len(P.syms) in (2, 3) and P.syms[0] == P.name):
+            continue
+        stmts, pname = select_stmts(P.func, len(P.syms))
+        # the element is the last symbol that is not punctuation (`L -> L x ;`)
+        elems = [i for i in range(2, len(P.syms) + 1) if P.syms[i - 1] not in G.terminals or P.syms[i - 1].isupper() and P.syms[i - 1] in ("ID",)]
+        if not elems:
+            continue
+        last = elems[-1]
+        alias = {}
+        for st in stmts:
+            if isinstance(st, ast.Assign) and len(st.targets) == 1 and isinstance(st.targets[0], ast.Name) and p_index(st.value, pname) is not None:
+                alias[st.targets[0].id] = p_index(st.value, pname)
+
+        def idx(e):
+            i = p_index(e, pname)
+            return alias.get(e.id) if i is None and isinstance(e, ast.Name) else i
+
+        n += 1
+        dropped = None
+        for evs, status in paths(stmts):
+            if status == "raise":
+                continue
+            kept = False
+            for c in calls_on_path(evs):
+                if any(idx(a) == last for a in c.args) and isinstance(c.func, ast.Attribute):
+                    kept = True
+            for e in evs:
+                if e.kind == "stmt" and isinstance(e.node, ast.Assign):
+                    for b in ast.walk(e.node.value):
+                        if isinstance(b, (ast.List, ast.Tuple)) and any(idx(x) == last for x in b.elts):
+                            kept = True
+                        if isinstance(b, ast.BinOp) and isinstance(b.op, ast.Add) and (idx(b.left) == last or idx(b.right) == last):
+                            kept = True  # list concatenation `p[1] + p[2]`
+            if not kept:
+                dropped = [(" ".join(unparse(e.node).split())[:50], e.val) for e in evs if e.kind == "cond"]
+        col.check(dropped is None, rule, f"{PARSER}::{P.func.name}[{P}] keeps every element", f"p[{last}] joins the list on every path",
+                  f"under {dropped} the element p[{last}] (`{P.syms[-1]}`) is not added to the list: that part of the program never reaches any pass - it is neither validated nor compiled", PARSER, P.func)
+    col.floor(rule, "left-recursive list productions", n, 5)
+
+
 def check_ctor_params_unchanged(model, col, rule):
     """What the parser hands to an expression node's constructor (operation, operands) is what the node stores: no constructor
     of an expression class re-binds one of its parameters to something built from *other* parameters, tables or attributes
